@@ -83,9 +83,11 @@ def treeDepth : List Nat → List Nat → Nat
     if s = 0 ∨ s = 1 then rest else max (depthOf n s) rest
   | _, _ => 1
 
-/-- dict case of `_normalize_split_every`: `{k: split_every.get(k, 2) for k in axis}`. -/
+/-- dict case of `_normalize_split_every`: `{k: max(split_every.get(k, 2), 2) for k in axis}`
+(the floor at 2 was added by /repo commit 5a7f27d; a fan-in of 1 never reduces, see
+`C18_fanin_one_never_reduces`). -/
 def normalizeSplitEveryDict (given : List (Nat × Nat)) (axis : List Nat) : List (Nat × Nat) :=
-  axis.map (fun a => (a, ((given.find? (fun p => p.1 == a)).map (·.2)).getD 2))
+  axis.map (fun a => (a, max (((given.find? (fun p => p.1 == a)).map (·.2)).getD 2) 2))
 
 /-- int case: `n = max(int(split_every ** (1/len(axis))), 2)`; `root` is the oracle value of the
 float expression. -/
